@@ -356,4 +356,192 @@ theorem skipFastLoop_some (d : List Nat) (n : Nat) :
     · simp only [hw, if_false]
       exact ⟨_, rfl⟩
 
+/-! ### `TupleDeltaIter` -/
+
+theorem ptNext_yield_le (d : List Nat) (s : PtSt) (a : Nat) (h : (ptNext d s).1 = .yield a) : a ≤ 65535 := by
+  unfold ptNext at h
+  split at h
+  · split at h
+    · simp at h
+    · simp at h; omega
+  · split at h
+    · simp at h
+    · simp only [] at h
+      split at h
+      · simp at h
+      · split at h
+        · simp at h
+        · simp at h; omega
+
+/-- what one `tdEmit` does to the state -/
+theorem tdEmit_facts (dd : List Nat) (s : TdSt) (pos : Nat) :
+    (tdEmit dd s pos).2.points = s.points ∧ (tdEmit dd s pos).2.nextPoint = s.nextPoint ∧
+    (tdEmit dd s pos).1 ≠ .trap ∧
+    (s.x.limit.isSome → (tdEmit dd s pos).2.x.limit.isSome) ∧
+    ((tdEmit dd s pos).1 ≠ .done → (tdEmit dd s pos).2.cur = s.cur + 1 ∧
+       (pos = s.cur → s.x.limit.isSome → muDl (tdEmit dd s pos).2.x < muDl s.x)) := by
+  unfold tdEmit
+  by_cases hpos : pos = s.cur
+  · rw [if_pos hpos]
+    have hx : s.x.limit.isSome → _ := dlNext_facts dd s.x
+    generalize dlNext dd s.x = rx at hx
+    obtain ⟨ox, x'⟩ := rx
+    simp only [] at hx
+    cases ox with
+    | yield dx =>
+      simp only []
+      cases hy : s.y with
+      | none =>
+        exact ⟨rfl, rfl, by simp, fun h => (hx h).1, fun _ => ⟨rfl, fun _ h => (hx h).2.2 (by simp)⟩⟩
+      | some y =>
+        simp only []
+        generalize dlNext dd y = ry
+        obtain ⟨oy, y'⟩ := ry
+        cases oy with
+        | yield dy => exact ⟨rfl, rfl, by simp, fun h => (hx h).1, fun _ => ⟨rfl, fun _ h => (hx h).2.2 (by simp)⟩⟩
+        | cont => exact ⟨rfl, rfl, by simp, fun h => (hx h).1, by simp⟩
+        | done => exact ⟨rfl, rfl, by simp, fun h => (hx h).1, by simp⟩
+        | trap => exact ⟨rfl, rfl, by simp, fun h => (hx h).1, by simp⟩
+    | cont => exact ⟨rfl, rfl, by simp, fun h => (hx h).1, by simp⟩
+    | done => exact ⟨rfl, rfl, by simp, fun h => (hx h).1, by simp⟩
+    | trap => exact ⟨rfl, rfl, by simp, fun h => (hx h).1, by simp⟩
+  · rw [if_neg hpos]
+    exact ⟨rfl, rfl, by simp, fun h => h, fun _ => ⟨rfl, fun h => absurd h hpos⟩⟩
+
+def TdInv (s : TdSt) : Prop :=
+  match s.points with
+  | some p => p.seen ≤ p.count ∧ s.nextPoint ≤ 65535
+  | none => s.x.limit.isSome
+
+def muTd (s : TdSt) : Nat :=
+  match s.points with
+  | some p => (65536 - s.cur) + muPt p
+  | none => muDl s.x
+
+theorem tdStep_facts (ser dd : List Nat) (s : TdSt) (hi : TdInv s) :
+    TdInv (tdStep ser dd s).2 ∧ (tdStep ser dd s).1 ≠ .trap ∧
+    ((tdStep ser dd s).1 ≠ .done → muTd (tdStep ser dd s).2 < muTd s) := by
+  unfold tdStep
+  cases hp : s.points with
+  | none =>
+    simp only [TdInv, hp] at hi
+    simp only []
+    obtain ⟨e1, e2, e3, e4, e5⟩ := tdEmit_facts dd s s.cur
+    rw [hp] at e1
+    refine ⟨?_, e3, fun hnd => ?_⟩
+    · simp only [TdInv, e1]; exact e4 hi
+    · simp only [muTd, e1, hp]; exact (e5 hnd).2 rfl hi
+  | some p =>
+    simp only [TdInv, hp] at hi
+    obtain ⟨hi1, hi2⟩ := hi
+    simp only []
+    by_cases hgt : s.cur > s.nextPoint
+    · rw [if_pos hgt]
+      have hf := ptNext_facts ser p hi1
+      have hy := ptNext_yield_le ser p
+      generalize ptNext ser p = rp at hf hy
+      obtain ⟨op, p'⟩ := rp
+      simp only [] at hf hy
+      cases op with
+      | yield v =>
+        have hv := hy v rfl
+        have hdec := hf.2.2.2 (by simp)
+        simp only []
+        obtain ⟨e1, e2, e3, e4, e5⟩ := tdEmit_facts dd { s with points := some p', nextPoint := v } v
+        simp only [] at e1 e2 e5
+        refine ⟨?_, e3, fun hnd => ?_⟩
+        · simp only [TdInv, e1, e2]; exact ⟨hf.1, hv⟩
+        · have := (e5 hnd).1
+          simp only [muTd, e1, hp, this]; omega
+      | cont => simp only [TdInv, muTd, hp]; exact ⟨⟨hf.1, hi2⟩, by simp, by simp⟩
+      | done => simp only [TdInv, muTd, hp]; exact ⟨⟨hf.1, hi2⟩, by simp, by simp⟩
+      | trap => simp only [TdInv, muTd, hp]; exact ⟨⟨hf.1, hi2⟩, by simp, by simp⟩
+    · rw [if_neg hgt]
+      obtain ⟨e1, e2, e3, e4, e5⟩ := tdEmit_facts dd s s.nextPoint
+      rw [hp] at e1
+      refine ⟨?_, e3, fun hnd => ?_⟩
+      · simp only [TdInv, e1, e2]; exact ⟨hi1, hi2⟩
+      · have := (e5 hnd).1
+        simp only [muTd, e1, hp, this]; omega
+
+theorem totalLen_some (d : List Nat) : ∃ r, totalLen d = some r := by
+  unfold totalLen
+  simp only []
+  split
+  · exact ⟨_, rfl⟩
+  · exact totalLenLoop_some d _ (count_le d) _ _ _ _ (by omega)
+
+theorem muPt_init_le (d : List Nat) : muPt (ptInit d) ≤ 65535 := by
+  have := count_le d
+  simp only [muPt, ptInit]
+  by_cases h : (countAndCountBytes d).fst = 0 <;> simp [h] <;> omega
+
+theorem tdInit_some (ser : List Nat) (isPoint : Bool) :
+    ∃ dd s, tdInit ser isPoint = some (dd, s) ∧ TdInv s ∧ muTd s < tdFuel dd := by
+  unfold tdInit
+  obtain ⟨tl, htl⟩ := totalLen_some ser
+  rw [htl]
+  simp only []
+  -- the total number of deltas
+  have htot : ∃ total, (if pointCount ser = 0 then countAllDeltas (ser.drop tl)
+        else some (if isPoint then pointCount ser * 2 else pointCount ser)) = some total ∧
+        total ≤ 64 * (ser.drop tl).length + 65534 := by
+    by_cases hc : pointCount ser = 0
+    · rw [if_pos hc]
+      obtain ⟨r, hr, hb⟩ := countAllLoop_some (ser.drop tl) ((ser.drop tl).length + 1) 0 0 (by omega)
+      exact ⟨r, hr, by omega⟩
+    · rw [if_neg hc]
+      have := count_le ser
+      refine ⟨_, rfl, ?_⟩
+      unfold pointCount
+      split <;> omega
+  obtain ⟨total, ht, hb⟩ := htot
+  rw [ht]
+  simp only []
+  -- the first point
+  have h0 : (ptInit ser).seen ≤ (ptInit ser).count := by simp [ptInit]
+  have hf := ptNext_facts ser (ptInit ser) h0
+  have hy := ptNext_yield_le ser (ptInit ser)
+  have hm := muPt_init_le ser
+  generalize ptNext ser (ptInit ser) = first at hf hy
+  obtain ⟨o1, p1⟩ := first
+  simp only [] at hf hy
+  cases hb' : isPoint with
+  | true =>
+    simp only [if_true]
+    obtain ⟨ys, hys⟩ := skipFastLoop_some (ser.drop tl) (total / 2) ((ser.drop tl).length + 2) (total / 2)
+      (dlInit (some total)) (by simp [dlInit])
+    unfold skipFast
+    rw [hys]
+    simp only []
+    refine ⟨_, _, rfl, ?_, ?_⟩
+    · cases o1 with
+      | yield v => simp only [TdInv]; exact ⟨hf.1, hy v rfl⟩
+      | cont => simp [TdInv, dlInit]
+      | done => simp [TdInv, dlInit]
+      | trap => simp [TdInv, dlInit]
+    · cases o1 with
+      | yield v =>
+        have := hf.2.2.2 (by simp)
+        simp only [muTd, tdFuel]; omega
+      | cont => simp only [muTd, tdFuel, muDl, dlInit, Option.getD_some]; omega
+      | done => simp only [muTd, tdFuel, muDl, dlInit, Option.getD_some]; omega
+      | trap => simp only [muTd, tdFuel, muDl, dlInit, Option.getD_some]; omega
+  | false =>
+    simp only [Bool.false_eq_true, if_false]
+    refine ⟨_, _, rfl, ?_, ?_⟩
+    · cases o1 with
+      | yield v => simp only [TdInv]; exact ⟨hf.1, hy v rfl⟩
+      | cont => simp [TdInv, dlInit]
+      | done => simp [TdInv, dlInit]
+      | trap => simp [TdInv, dlInit]
+    · cases o1 with
+      | yield v =>
+        have := hf.2.2.2 (by simp)
+        simp only [muTd, tdFuel]; omega
+      | cont => simp only [muTd, tdFuel, muDl, dlInit, Option.getD_some]; omega
+      | done => simp only [muTd, tdFuel, muDl, dlInit, Option.getD_some]; omega
+      | trap => simp only [muTd, tdFuel, muDl, dlInit, Option.getD_some]; omega
+
+
 end FontVerif.C01Iter
